@@ -36,7 +36,7 @@ def handwritten():
     S = []
     S.append(mk('hw:mixed-sizes', [
         ('label', 'start'), ('instr', 'nop', None), ('instr', 'ld16', L('end')), ('instr', 'ld8', ('lsb', L('start'))),
-        ('instr', 'nib', None), ('data', '.2byte', [L('start'), L('end')]), ('label', 'mid'),
+        ('instr', 'nib', None), ('instr', 'nn2', None), ('data', '.2byte', [L('start'), L('end')]), ('label', 'mid'),
         ('data', '.byte', [('lsb', L('mid'))]), ('label', 'end')]))
     S.append(mk('hw:align-sym', [
         ('instr', 'nop', None), ('label', 'a'), ('align', V('p')), ('label', 'b'), ('data', '.2byte', [L('a'), L('b')]),
@@ -108,8 +108,8 @@ def random_program(rnd, n_stmts, sym_page=False):
         k = rnd.choices(['instr', 'data', 'fill', 'org', 'align', 'mute', 'if', 'const'],
                         [4, 4, 2, 1.5, 2, 1, 1, 1])[0]
         if k == 'instr':
-            m = rnd.choice(['nop', 'nib', 'ld8', 'ld16'])
-            a = None if m in ('nop', 'nib') else (('lsb', operand()) if m == 'ld8' else L(rnd.choice(all_labels[:want_labels])))
+            m = rnd.choice(['nop', 'nib', 'ld8', 'ld16', 'nn2'])
+            a = None if m in ('nop', 'nib', 'nn2') else (('lsb', operand()) if m == 'ld8' else L(rnd.choice(all_labels[:want_labels])))
             prog.append(('instr', m, a))
         elif k == 'data':
             d = rnd.choice(['.byte', '.2byte', '.4byte'])
